@@ -269,6 +269,7 @@ var ghostRecNext func(d []byte, o int) int
 
 // ghostTableURI: the URI of a table's file (fixed when the table is created).
 var ghostTableURI func(t *Table) string
+var ghostFileNum func(t *Table) int64
 
 //@ func Table.URI
 //@   property C09
@@ -477,6 +478,34 @@ var ghostLevelOf func(ll *LevelList, t *Table) int
 //@   order New after Add
 //@   atcall Load: false
 //@   ensures called(Add)
+
+// Table-file numbers (C08, C09): NextTableNumber is greater than the file number of every table of
+// the layout; DB.Start hands it to the writer, which then names no new file like a loaded one.
+// ghostFileNum: the number in a table's file name (NNNNNN.sst), negative if it has none.
+// (FileNumber parses the name and ContinueFrom is a compare-and-swap loop on an atomic counter:
+// string functions and atomics are not modelled - both trusted.)
+//@ func Table.FileNumber
+//@   property C08 C09
+//@   trusted
+//@   modifies nothing
+//@   ensures (result1 ==> result0 == ghostFileNum(t) && result0 >= 0) && (!result1 ==> ghostFileNum(t) < 0)
+//@ func TableWriter.ContinueFrom
+//@   property C08 C09
+//@   trusted
+//@   modifies TableWriter.*
+//@ func LevelList.NextTableNumber
+//@   property C08 C09
+//@   nosafety
+//@   pure
+//@   reads ll.levels
+//@   requires forall(0, len(ll.levels), func(i int) bool { return ll.levels[i].tables != nil })
+//@   modifies nothing
+//@   ensures result >= 0 && forall(0, len(ll.levels), func(i int) bool { return forall(0, len(ll.levels[i].tables.l), func(j int) bool { return ghostFileNum(ll.levels[i].tables.l[j]) < result }) })
+//@   loop 0:
+//@     invariant next >= 0 && forall(0, idx_, func(i int) bool { return forall(0, len(ll.levels[i].tables.l), func(j int) bool { return ghostFileNum(ll.levels[i].tables.l[j]) < next }) })
+//@   loop 1:
+//@     invariant next >= 0 && same(level, ll.levels[idx0_]) && forall(0, idx0_, func(i int) bool { return forall(0, len(ll.levels[i].tables.l), func(j int) bool { return ghostFileNum(ll.levels[i].tables.l[j]) < next }) })
+//@     invariant forall(0, idx_, func(j int) bool { return ghostFileNum(ll.levels[idx0_].tables.l[j]) < next })
 
 // A layout built from the tables of a checkpoint knows the HIGHEST sequence number any of its
 // tables ends with (the restored database continues numbering above it - C08, C03).
